@@ -1,4 +1,6 @@
 pub mod c02;
+pub mod c03;
+pub mod c04;
 pub mod c12;
 
 use crate::engine::Ctx;
@@ -14,6 +16,8 @@ pub fn dispatch(ctx: &Ctx, replay: Option<&str>) -> i32 {
     }
     match ctx.id.as_str() {
         "C02" => p!(c02),
+        "C03" => p!(c03),
+        "C04" => p!(c04),
         "C12" => p!(c12),
         other => {
             eprintln!("MACHINERY: unknown property {}", other);
